@@ -32,6 +32,16 @@ KINDS = {
     "block-closing-star": " /* a **/ ",
     "block-slash-star-slash": " /*/ x */ ",
     "block-with-newline-end": " /* a\n*/ ",
+    "block-line-marker-first": " /* // old */ ",
+    "block-line-marker-tight": "/*// x*/",
+    "block-line-marker-later-line": " /* a\n // b */ ",
+    "block-apostrophe": " /* don't */ ",
+    "block-dquote": ' /* 3" wide */ ',
+    "block-quoted-terminator": ' /* salt: "a" */ ',
+    "block-hash-and-backslash": " /* # \\ \\n */ ",
+    "line-comment-apostrophe": " // don't\n",
+    "line-comment-block-opener": " // see /* below\n",
+    "line-comment-backslash-eol": " // path c:\\\n",
 }
 COMMENT_KINDS = [k for k, v in KINDS.items() if "/" in v]
 WS_KINDS = [k for k in KINDS if k not in COMMENT_KINDS]
